@@ -97,6 +97,62 @@ theorem no_false_success (s s' : CS) (e : Ev) (h : s.step e = some s') (i p : Na
       exact absurd this hn
     · cases h
 
+/-- A reply that was completely received is the caller's: whatever happens afterwards — the
+    connection failing, the fan-out, other callers coming and going — it stays delivered until
+    that caller itself takes it. -/
+theorem delivered_reply_is_kept (s s' : CS) (e : Ev) (h : s.step e = some s') (i p : Nat)
+    (hw : (i, some p) ∈ s.woken) (hne : ∀ j, e = .ret j → j ≠ i) : (i, some p) ∈ s'.woken := by
+  cases e with
+  | alloc j =>
+    simp only [CS.step] at h
+    split at h
+    · cases h
+    · split at h <;> first | (cases h; exact hw) | cases h
+  | enqueue j =>
+    simp only [CS.step] at h
+    split at h
+    · cases h
+    · split at h
+      · cases h
+      · split at h
+        · cases h
+          unfold CS.release
+          split <;> exact hw
+        · cases h; exact hw
+  | deliver t q =>
+    simp only [CS.step] at h
+    split at h
+    · cases h
+    · split at h
+      · cases h; exact hw
+      · cases h; exact List.mem_cons_of_mem _ hw
+  | fail =>
+    simp only [CS.step] at h
+    split at h
+    · cases h
+    · cases h; exact hw
+  | fanout =>
+    simp only [CS.step] at h
+    split at h
+    · cases h
+    · split at h
+      · cases h
+      · cases h; exact List.mem_cons_of_mem _ hw
+  | ret j =>
+    have hji : j ≠ i := hne j rfl
+    simp only [CS.step] at h
+    split at h
+    · rename_i w t hf ht
+      cases h
+      have hwj : w.1 = j := by
+        have := List.find?_some hf
+        simpa using this
+      have hne' : (i, some p) ≠ w := by
+        intro he; rw [← he] at hwj; exact hji hwj.symm
+      unfold CS.release
+      split <;> exact (List.mem_erase_of_ne hne').mpr hw
+    · cases h
+
 /-- the error fan-out terminates and wakes every pending call exactly once, in list order:
     after `pend.length` iterations the list is empty and each former member has its error -/
 theorem fanout_wakes_all : ∀ (k : Nat) (s : CS), s.closed = true → s.pend.length = k →
